@@ -176,7 +176,11 @@ STR_VALUES = ['"a"', '"INBOX.x"', '"café"', '"with \\"quote\\""', '"back\\\\sla
 
 ML_VALUES = ["text:\nhello\n.\n", "text:\n..dot\nmore\n.\n", "text:\r\nx\r\n.\r\n", "text:\n$x$\n.\n",
              "text:\n.\n", "text:\r\n.\r\n", "text: #c\n.\n", "text:\n\n.\n", "text:\n...three\n.\n", "text:\n....\n..\n.\n",
-             "text: \t\nx \n.\n", "text:\n.x\n.\n"]
+             "text: \t\nx \n.\n", "text:\n.x\n.\n",
+             # lines that look like the terminator but are not, followed by text that would be valid Sieve
+             "text:\na\n. \n;\nstop;\nreject text:\nb\n.\n", "text:\na\n.\t\n;\nkeep;\nreject text:\nb\n.\n",
+             "text:\r\na\r\n. \r\n;\r\nstop;\r\nreject text:\r\nb\r\n.\r\n", "text:\na\n .\n;\nstop;\nreject text:\nb\n.\n",
+             "text:\na\n.;\nstop;\nreject text:\nb\n.\n", "text:\na\n..\n;\nstop;\nreject text:\nb\n.\n"]
 
 
 def gen_string(rng, ty):
